@@ -210,3 +210,22 @@ def run(ctx: Ctx):
 
 def make_replay(ctx, o):
     return None
+
+
+def native_search(ctx, o):
+    import itertools
+    inputs = []
+    for n, defaults, prefix, scoped, cav, override, init, contents in itertools.product(
+            (0, 2), (False, True), ('MEMBER_FUNCTION', 'STATIC', 'VIRTUAL'), (True, False), ('', 'const'),
+            (False, True), ('', 'default', '0'), ('', 'a;\n\n  b;\r\nc')):
+        inputs.append({'kind': 'function', 'n': n, 'defaults': defaults, 'prefix': prefix, 'scoped': scoped, 'cav': cav,
+                       'override': override, 'init': init, 'contents': contents})
+    for n, defaults, explicit, init, mil, contents in itertools.product(
+            (0, 2), (False, True), (False, True), ('', 'default'), ([], ['a(1)'], ['a(1)', 'b{2}']), ('', 'x;\ny;')):
+        inputs.append({'kind': 'constructor', 'n': n, 'defaults': defaults, 'explicit': explicit, 'init': init,
+                       'mil': mil, 'contents': contents})
+    for override, init, contents in itertools.product((False, True), ('', 'default'), ('', 'x;')):
+        inputs.append({'kind': 'destructor', 'override': override, 'init': init, 'contents': contents})
+    for lines in ([], ['a'], ['a', '', 'b']):
+        inputs.append({'kind': 'blocks', 'lines': lines})
+    return {'script': 'native/replay_cpp.py', 'input': {'search': inputs}}
